@@ -181,3 +181,71 @@ def check(run, prog, tier):
     p = cfgq.reach_consistent(mo, [mo.entry], lambda blk: blk.id == dl[0].id, lambda e: "dest" if (e.get("k") == "Ref" and e.get("n") == "dest") else None, avoid_edges=edges) if edges else [0]
     run.ob("C08-d", "dest-live", p is None, "`dest->contains = item` is reached only through the not-destructed edge of the destination test" if p is None else "path %s links into the destination without the destructed test" % (p[:10],),
            mo.file, dl[2].get("l"), "move_object", what="move_object can move an object into a destructed object")
+
+    # ---- C08-c inventory links are not written after a re-entrant hook
+    import callgraph
+    run.rule("C08-c", "no store to an inventory link (object_t.super/.contains/.next_inv, or through an object_t** cursor) is reachable after a call that can run LPC code and return, in the same function; destruct_object's unlink is the one reviewed exception (it re-reads ob->super, see C08-b)", 2)
+    cg = callgraph.CallGraph(prog)
+    ret_lpc = cg.reaches(callgraph.LPC_SEEDS | {"<unknown>"}, barriers={"fatal"} | callgraph.RAISE_SEEDS)
+    LINK = ("super", "contains", "next_inv")
+    REVIEWED = {"destruct_object": "the unlink from the environment runs after the move_or_destruct hooks by design; C08-b requires it to re-read ob->super and to walk the environment's list afresh"}
+    nst = 0
+    for f in sorted(prog.functions(), key=lambda x: (x.file, x.line)):
+        stores = [(b, i, n) for b, i, n in f.nodes() if n.get("k") == "Asg" and n.get("op") == "=" and strip(n["L"]).get("k") == "Mem" and strip(n["L"]).get("f") in LINK and strip(n["L"]).get("rec") in ("object_s", "object_t")]
+        stores += [(b, i, n) for b, i, n in f.nodes() if n.get("k") == "Asg" and n.get("op") == "=" and strip(n["L"]).get("k") == "Un" and strip(n["L"]).get("op") == "*"
+                   and "object_s **" in (strip(strip(n["L"])["e"]).get("t") or "") and any(x.get("k") == "Mem" and x.get("f") in LINK for x in walk(n["R"]))]
+        if not stores:
+            continue
+        run.saw(f)
+        nst += len(stores)
+        kills = [(b, i, n) for b, i, n in f.calls() if cg.callees_of_call(f, n) & ret_lpc]
+        reach = cfgq.reach_set(f, [s for b, i, n in kills for s in f.blocks[b.id].live_succ()])
+        late = []
+        for b, i, n in stores:
+            if b.id in reach or any(kb.id == b.id and ki < i for kb, ki, kn in kills):
+                late.append((n.get("l"), show(n)[:50]))
+        inst = "links:%s:%s" % (rel(f.file), f.name)
+        if not late:
+            run.ob("C08-c", inst, True, "%d inventory link store(s), none after a re-entrant call (%d such calls in the function)" % (len(stores), len(kills)), f.file, f.line, f.name)
+        elif f.name in REVIEWED:
+            run.ob("C08-c", inst, True, "link stores after hooks %s: %s" % ([l for l, t in late], REVIEWED[f.name]), f.file, f.line, f.name)
+        else:
+            run.ob("C08-c", inst, False, "inventory link written at line %s (`%s`) after a call that can run LPC code: the objects involved may have been moved or destructed by the hook" % late[0], f.file, late[0][0], f.name,
+                   what="%s relinks an inventory after a re-entrant hook without starting from fresh state" % f.name)
+    run.need(nst >= 6, "inventory link stores (found %d)" % nst)
+
+    # ---- C08-e an object is entered into the name table before anything can destruct it
+    run.rule("C08-e", "load_object/clone_object: between linking a new object onto obj_list and enter_object_hash() no call can reach destruct_object (destruct_object removes the object from the name table unconditionally: for an object that was never entered this empties the whole hash bucket)", 2)
+    may_destruct = cg.reaches({"destruct_object"} | callgraph.LPC_SEEDS | {"<unknown>"}, barriers={"fatal"})
+    ne = 0
+    for f in sorted(prog.functions(), key=lambda x: (x.file, x.line)):
+        enters = [(b, i, n) for b, i, n in f.calls("enter_object_hash")]
+        links = [(b, i, n) for b, i, n in f.nodes() if n.get("k") == "Asg" and n.get("op") == "=" and strip(n["L"]).get("k") == "Ref" and strip(n["L"]).get("n") == "obj_list" and strip(n["L"]).get("d") in ("global", "static")]
+        if not enters or not links:
+            continue
+        ne += 1
+        run.saw(f)
+        lb, li, ln = links[0]
+        follow = sorted([x for x in enters if f.point_dominates((lb.id, li), (x[0].id, x[1]))], key=lambda x: x[2].get("l") or 0)
+        if not follow:
+            run.ob("C08-e", "enter-before-destruct:%s:%s" % (rel(f.file), f.name), False, "no enter_object_hash() follows the obj_list link at line %s on every path" % ln.get("l"), f.file, ln.get("l"), f.name,
+                   what="%s links a new object onto obj_list without entering it into the name table" % f.name)
+            continue
+        eb, ei, en = follow[0]
+        # calls on some path from the link to the enter (or after the link when the enter does not follow at all)
+        fwd = cfgq.reach_set(f, [lb.id])
+        back = {bid for bid in f.reachable() if eb.id in cfgq.reach_set(f, [bid])}
+        bad = []
+        for b, i, n in f.calls():
+            if not (cg.callees_of_call(f, n) & may_destruct) or n.get("fn") in ("enter_object_hash",):
+                continue
+            after_link = (b.id == lb.id and i > li) or (b.id != lb.id and b.id in fwd)
+            before_enter = (b.id == eb.id and i < ei) or (b.id != eb.id and b.id in back and not f.point_dominates((eb.id, ei), (b.id, i)))
+            if after_link and before_enter and not n.get("nr"):
+                bad.append("%s() line %s" % (n.get("fn") or "(*)", n.get("l")))
+        ordered = f.point_dominates((lb.id, li), (eb.id, ei)) or f.point_dominates((eb.id, ei), (lb.id, li))
+        run.ob("C08-e", "enter-before-destruct:%s:%s" % (rel(f.file), f.name), ordered and not bad,
+               "obj_list link (line %s) and enter_object_hash (line %s) are adjacent: nothing in between can reach destruct_object" % (ln.get("l"), en.get("l")) if ordered and not bad else
+               "between the obj_list link (line %s) and enter_object_hash (line %s) these calls can destruct the object: %s" % (ln.get("l"), en.get("l"), bad[:4]),
+               f.file, en.get("l"), f.name, what="%s lets %s run before the new object is in the name table; destructing it then unlinks the head of its hash bucket and every other object in that bucket becomes unfindable" % (f.name, bad[:2]))
+    run.need(ne >= 2, "functions that create and enter objects (found %d)" % ne)
